@@ -61,13 +61,16 @@ Fixpoint hreads (O : oracles3) (w : world) (hi : hinst) (ks : list (list N)) : w
 
 (* ---------------------------------------------------------------- what the environment can do meanwhile *)
 Definition set_val (w : world) (l : list N) (v : rawv) : world := {| w_vals := dset l v (w_vals w); w_dicts := w_dicts w |}.
-Definition is_list (o : option rawv) : bool := match o with Some (VList _) => true | _ => false end.
+(* an in-place change keeps the type of the object: list[:] = [..]  /  dict.clear(); dict.update(..) *)
+Definition same_shape (o : option rawv) (v : rawv) : bool :=
+  match o, v with Some (VList _), VList _ => true | Some (VDict _), VDict _ => true | _, _ => false end.
 Inductive hop :=
   | HRead (k : list N)
   | HSet (k : list N) (l : list (list N))          (* caller:  d[k] = [..]            a new list object *)
   | HDel (k : list N)                              (* caller:  del d[k] *)
-  | HMutCaller (k : list N) (l : list (list N))    (* caller:  d[k][:] = [..]         in place, when d[k] is a list *)
-  | HMutResult (k : list N) (l : list (list N)).   (* holder:  getattr(m, k)[:] = [..]  in place, when k was read and returned a list *)
+  | HMutCaller (k : list N) (v : rawv)             (* caller:  d[k] changed in place to the content v, when d[k] is a list / dict like v *)
+  | HMutResult (k : list N) (v : rawv).            (* holder:  the object getattr(m, k) returned, changed in place, when k was read and
+                                                      returned a list / dict like v *)
 
 Definition hstep (O : oracles3) (dl : list N) (st : world * hinst) (o : hop) : world * hinst * option res :=
   let '(w, hi) := st in
@@ -77,16 +80,16 @@ Definition hstep (O : oracles3) (dl : list N) (st : world * hinst) (o : hop) : w
       let nl := fresh (w_vals w) in
       ({| w_vals := (nl, VList l) :: w_vals w; w_dicts := dset dl (dset k nl (odict (lookup dl (w_dicts w)))) (w_dicts w) |}, hi, None)
   | HDel k => ({| w_vals := w_vals w; w_dicts := dset dl (remove k (odict (lookup dl (w_dicts w)))) (w_dicts w) |}, hi, None)
-  | HMutCaller k l =>
+  | HMutCaller k v =>
       match lookup k (odict (lookup dl (w_dicts w))) with
-      | Some loc => if is_list (lookup loc (w_vals w)) then (set_val w loc (VList l), hi, None) else (w, hi, None)
+      | Some loc => if same_shape (lookup loc (w_vals w)) v then (set_val w loc v, hi, None) else (w, hi, None)
       | None => (w, hi, None)
       end
-  | HMutResult k l =>
-      match lookup k (hi_cache hi) with
-      | Some (CRef loc) => if is_list (lookup loc (w_vals w)) then (set_val w loc (VList l), hi, None) else (w, hi, None)
-      | Some (COwn (EList _)) => (w, {| hi_raw := hi_raw hi; hi_cache := (k, COwn (EList l)) :: hi_cache hi |}, None)
-      | _ => (w, hi, None)
+  | HMutResult k v =>
+      match lookup k (hi_cache hi), v with
+      | Some (CRef loc), _ => if same_shape (lookup loc (w_vals w)) v then (set_val w loc v, hi, None) else (w, hi, None)
+      | Some (COwn (EList _)), VList l => (w, {| hi_raw := hi_raw hi; hi_cache := (k, COwn (EList l)) :: hi_cache hi |}, None)
+      | _, _ => (w, hi, None)
       end
   end.
 Fixpoint hrun (O : oracles3) (dl : list N) (st : world * hinst) (ops : list hop) : world * hinst * list res :=
@@ -97,9 +100,28 @@ Fixpoint hrun (O : oracles3) (dl : list N) (st : world * hinst) (ops : list hop)
               (w2, hi2, match r with Some x => x :: rs | None => rs end)
   end.
 
+(* ---------------------------------------------------------------- from_raw(validate=True) on the heap *)
+(* the attribute reads the validation performs: metadata_version, then every present or required key that is a field not newer than
+   the declared version, in sorted order (MetaModel3.check_loop3 calls read3 for exactly these) *)
+Definition validation_reads (O : oracles3) (data : list (list N * rawv)) : list (list N) :=
+  let mv := match compute3 O k_mv (lookup k_mv data) with Ok (EStr v) => index_of v gen_valid_versions | _ => None end in
+  k_mv :: filter (fun k => is_field k && match gate_of mv k with GOk => true | _ => false end) (sort_s (fields_to_check (map fst data))).
+
 (* the caller's dict as a RawMetadata value *)
 Definition deref (w : world) (d : list (list N * list N)) : list (list N * rawv) :=
   flat_map (fun kl => match lookup (snd kl) (w_vals w) with Some v => [(fst kl, v)] | None => [] end) d.
+(* Metadata.from_raw(data, validate=...): the verdict is the functional model's ([from_raw3] on the content of the caller's dict), the effect
+   on the heap is that of the reads the validation performs *)
+Definition hfrom_raw (O : oracles3) (validate : bool) (w : world) (dl : list N) : (world * hinst) + frres :=
+  let data := deref w (odict (lookup dl (w_dicts w))) in
+  let '(w1, hi) := from_raw_h w dl in
+  if validate then
+    match from_raw3 O true data with
+    | FOk _ => let '(w2, hi2, _) := hreads O w1 hi (validation_reads O data) in inl (w2, hi2)
+    | r => inr r
+    end
+  else inl (w1, hi).
+
 (* a world holding exactly one dict object, the caller's, built from a RawMetadata value: entry number i lives at location [i] *)
 Fixpoint alloc (i : N) (data : list (list N * rawv)) : list (list N * rawv) * list (list N * list N) :=
   match data with
